@@ -440,6 +440,11 @@ func runEnv(c EnvCase) (res vh.Result) {
 	taskMark := len(w.Master.Tasks())
 	env, cerr := w.NewEnv(wf, req, 40*time.Second)
 	if cerr != nil {
+		if strings.Contains(cerr.Error(), "deployment timed out") {
+			res.Inconclusive = "deployment did not finish (machine under load): " + cerr.Error()
+			simworld.Discard()
+			return
+		}
 		return fail("creation-failed", "creation failed: %v", cerr)
 	}
 	defer w.Destroy(env.Id, true, true, false, 30*time.Second)
